@@ -9,7 +9,7 @@ IDS="$*"
 [ -n "$IDS" ] || IDS=$(sed -n 's/.*"property": *"\([A-Z0-9]*\)".*/\1/p' "$D/meta.json" | head -1)
 if [ -n "$(git -C /repo status --porcelain --untracked-files=no)" ]; then echo "refusing: /repo has uncommitted changes" >&2; exit 2; fi
 git -C /repo apply "$D/patch.diff" || { echo "patch does not apply" >&2; exit 2; }
-trap 'git -C /repo checkout -- .' EXIT INT TERM
+trap 'git -C /repo checkout -- .; git -C /repo clean -fdq -- rscel/src rscel-macro/src extensions' EXIT INT TERM
 export VERIF_OUT_DIR=/tmp/seeded-out/$(basename $D); mkdir -p $VERIF_OUT_DIR
 for id in $IDS; do
   out=$("$ROOT/check" "$id" "$TIER" 2>&1); rc=$?
